@@ -4,8 +4,6 @@ use std::fmt;
 
 use core::hash::{Hash, Hasher};
 
-use itertools::Itertools;
-
 use rustc_ast::ast::{self, UseTreeKind};
 use rustc_span::{
     BytePos, DUMMY_SP, Span,
@@ -255,12 +253,28 @@ fn flatten_use_trees(
 ) -> Vec<UseTree> {
     // Return non-sorted single occurrence of the use-trees text string;
     // order is by first occurrence of the use-tree.
-    use_trees
+    let mut result: Vec<UseTree> = Vec::with_capacity(use_trees.len());
+    for tree in use_trees
         .into_iter()
         .flat_map(|tree| tree.flatten(import_granularity))
         .map(UseTree::nest_trailing_self)
-        .unique()
-        .collect()
+    {
+        // Only drop an import that really is a duplicate: the same path with the same
+        // visibility, and nothing attached (attributes such as `#[cfg]`, comments) that
+        // tells the two declarations apart.
+        let is_duplicate = tree.attrs.is_none()
+            && !tree.contains_comment()
+            && result.iter().any(|seen| {
+                seen == &tree
+                    && seen.attrs.is_none()
+                    && !seen.contains_comment()
+                    && seen.same_visibility(&tree)
+            });
+        if !is_duplicate {
+            result.push(tree);
+        }
+    }
+    result
 }
 
 impl fmt::Debug for UseTree {
